@@ -88,9 +88,9 @@ statements : process_def             { $$ = []unexpandedProcessOrFunction{$1} }
 process_def : 
 			/* without type - todo remove option to force types */
 		    PRC LSBRACK names RSBRACK EQUALS expression 
-				{ $$ = unexpandedProcessOrFunction{kind: PROCESS_DEF, proc: incompleteProcess{Body:$6, Providers: $3}, position: gritsVAL.currPosition} }
+				{ $$ = unexpandedProcessOrFunction{kind: PROCESS_DEF, proc: incompleteProcess{Body:$6, Providers: reverseNames($3)}, position: gritsVAL.currPosition} }
 		  | PRC LSBRACK names RSBRACK COLON session_type EQUALS expression 
-				{ $$ = unexpandedProcessOrFunction{kind: PROCESS_DEF, proc: incompleteProcess{Body:$8, Type: $6, Providers: $3}, position: gritsVAL.currPosition} };
+				{ $$ = unexpandedProcessOrFunction{kind: PROCESS_DEF, proc: incompleteProcess{Body:$8, Type: $6, Providers: reverseNames($3)}, position: gritsVAL.currPosition} };
 		/*| SPRC LSBRACK names RSBRACK COLON expression
 				{ $$ = unexpandedProcessOrFunction{kind: PROCESS_DEF, proc: incompleteProcess{Body:$6, Providers: $3}, position: gritsVAL.currPosition} };*/
 
@@ -136,17 +136,18 @@ branches :   /* empty */         										 { $$ = nil }
          |               LABEL LANGLE name RANGLE RIGHT_ARROW expression { $$ = []*process.BranchForm{process.NewBranch(process.Label{L: $1}, $3, $6)} }
          | branches PIPE LABEL LANGLE name RANGLE RIGHT_ARROW expression { $$ = append($1, process.NewBranch(process.Label{L: $3}, $5, $8)) };
 
+/* Lists are built back to front (appending at the end keeps parsing linear) and reversed where they are used */
 names : name { $$ = []process.Name{$1} }
- 	  | name COMMA names { $$ = append([]process.Name{$1}, $3...) };
+ 	  | name COMMA names { $$ = append($3, $1) };
 
 optional_names : /* empty */ { $$ = nil }
 		| name { $$ = []process.Name{$1} }
-		| name COMMA names { $$ = append([]process.Name{$1}, $3...) };
+		| name COMMA names { $$ = append([]process.Name{$1}, reverseNames($3)...) };
 
 optional_names_with_type_ann : 
 			/* empty */ { $$ = nil }
 		| name_with_type_ann { $$ = []process.Name{$1} }
-		| name_with_type_ann COMMA names_with_type_ann { $$ = append([]process.Name{$1}, $3...) };
+		| name_with_type_ann COMMA names_with_type_ann { $$ = append([]process.Name{$1}, reverseNames($3)...) };
 
 comma_optional_names_with_type_ann : 
 			/* empty */ { $$ = nil }
@@ -155,7 +156,7 @@ comma_optional_names_with_type_ann :
 
 names_with_type_ann : 
 	name_with_type_ann { $$ = []process.Name{$1} }
-	| name_with_type_ann COMMA names_with_type_ann { $$ = append([]process.Name{$1}, $3...) };
+	| name_with_type_ann COMMA names_with_type_ann { $$ = append($3, $1) };
 
 name_with_type_ann : 
 			/* without type - todo remove option to force types */
@@ -174,7 +175,7 @@ name : SELF { $$ = process.Name{IsSelf: true} }
 		  $$ = process.Name{Ident: $2, IsSelf: false, ExplicitPolarity: &pol} };
 
 assuming_def : ASSUMING names_with_type_ann
-			{ $$ = unexpandedProcessOrFunction{kind: ASSUMING_DEF, assumedFreeNameTypes: $2, position: gritsVAL.currPosition} };
+			{ $$ = unexpandedProcessOrFunction{kind: ASSUMING_DEF, assumedFreeNameTypes: reverseNames($2), position: gritsVAL.currPosition} };
 
 function_def : 
 			/* without type - todo remove option to force types */
@@ -224,9 +225,9 @@ session_type_init :
 		   | /* unit */ UNIT
 		   		{ $$ = types.NewUnitTypeInitial() }
 		   | /* select +{ } */ PLUS LCBRACK session_type_options_init RCBRACK  
-		   		{ $$ = types.NewSelectLabelTypeInitial($3) }
+		   		{ $$ = types.NewSelectLabelTypeInitial(reverseOptions($3)) }
 		   | /* branch &{ } */ AMPERSAND LCBRACK session_type_options_init RCBRACK  
-		   		{ $$ = types.NewBranchCaseTypeInitial($3) }
+		   		{ $$ = types.NewBranchCaseTypeInitial(reverseOptions($3)) }
 		   | /* send A * B */ session_type_init TIMES session_type_init
 		   		{ $$ = types.NewSendTypeInitial($1, $3) }
 		   | /* receive A -o B */ session_type_init LOLLI session_type_init
@@ -246,7 +247,7 @@ session_type_options_init :
             LABEL COLON session_type_init 
 				{ $$ = []types.OptionInitial{*types.NewOptionInitial($1, $3)}} 
 	 	  | LABEL COLON session_type_init COMMA session_type_options_init 
-		  { $$ = append([]types.OptionInitial{*types.NewOptionInitial($1, $3)}, $5...) };
+		  { $$ = append($5, *types.NewOptionInitial($1, $3)) };
 
 modality : LABEL { $$ = $1 };
 
